@@ -1583,3 +1583,57 @@ def k_replies( ctx ):
                                           'single': 'a list holding exactly that reply' }[kind], func='enip_replies' )
     res.cells = len( cells )
     return res
+
+
+# ---------------------------------------------------------------- T-OPTEXT: what of an operation text is taken for the tag
+
+_OPTEXT_CELLS = (		# operation text -> ( tag text handed to the path parser, byte offset stored or None, value text )
+    ( 'Int[1]',               ( 'Int[1]', None, '' )),
+    ( ' Int[1] ',             ( 'Int[1]', None, '' )),
+    ( 'Int\n',                ( 'Int', None, '' )),
+    ( '\tTag[0-3]\r\n',       ( 'Tag[0-3]', None, '' )),
+    ( ' Int[1] = 5 ',         ( 'Int[1]', None, '5' )),
+    ( 'Tag[1-5] + 4',         ( 'Tag[1-5]', 4, '' )),
+    ( ' Tag[0-3]+8 = 1, 2 ',  ( 'Tag[0-3]', 8, '1, 2' )),
+    ( '@0x1FF/01/0x1A[99] ',  ( '@0x1FF/01/0x1A[99]', None, '' )),
+)
+
+
+@rule( 'T-OPTEXT', props=( 'C12', ), floor=8 )
+def t_optext( ctx ):
+    """parse_operations: blanks ( and the newline of a line read from a file or stdin ) around the tag are not part of it, with or without a
+    value or an offset behind it: the statements of the loop body up to the call of device.parse_path_elements are evaluated on 8 operation
+    texts and the argument of that call, the byte offset stored and the value text are compared with what the text spells."""
+    from .fold import run_block
+    res = Result( 'T-OPTEXT' )
+    src = ctx.src( CLIENT )
+    fn = src.get( 'parse_operations' )
+    loops = [ l for l in fn.body if isinstance( l, ast.For ) and isinstance( l.target, ast.Name ) ]
+    if len( loops ) != 1:
+        raise AnalysisError( 'parse_operations: the loop over the operation texts not found' )
+    loop = loops[0]; TAG = loop.target.id
+    calls = [ ( k, c ) for k, st in enumerate( loop.body ) for c in ast.walk( st ) if is_call_to( c, 'parse_path_elements' ) and c.args ]
+    if len( calls ) != 1:
+        raise AnalysisError( 'parse_operations: the call of device.parse_path_elements not found in the loop body' )
+    k, call = calls[0]
+    head = [ st for st in loop.body[:k] if not ( isinstance( st, ast.If ) and is_call_to( st.test, 'isinstance' )) ]
+    OPR = next(( t.value.id for st in head for t in ast.walk( st ) if isinstance( t, ast.Subscript ) and isinstance( t.ctx, ast.Store ) and isinstance( t.value, ast.Name )), 'opr' )
+    VALS = [ t.id for st in head for a in [ st ] if isinstance( a, ast.Assign ) and try_fold( a.value ) == '' for t in a.targets if isinstance( t, ast.Name ) ]
+    for text, ( wtag, woff, wval ) in _OPTEXT_CELLS:
+        env = { TAG: text }
+        try:
+            out = run_block( head, env, ignore_calls=( 'log', ))
+            got = fold( call.args[0], env )
+        except NoFold as exc:
+            raise AnalysisError( 'parse_operations: the statements ahead of parse_path_elements are not a decision fragment on %r: %s' % ( text, exc ))
+        goff = ( env.get( OPR ) or {} ).get( 'offset' )
+        gval = env.get( VALS[0] ) if VALS else None
+        if out.kind != 'fall':
+            res.bad( src, out.node or loop, 'parse_operations: %r -> %s' % ( text, out ), 'a well-formed operation text is refused' )
+        elif ( got, goff ) != ( wtag, woff ) or ( VALS and ( gval or '' ).strip() != wval ):
+            res.bad( src, call, 'parse_operations: %r -> tag %r, offset %r, values %r' % ( text, got, goff, gval ),
+                     'the text spells tag %r, offset %r, values %r: blanks and the end of the line around the tag are not part of it ( a line read from stdin - "Int\\n" - otherwise names a tag that does not exist, and "Int[1] " is refused as garbage )' % ( wtag, woff, wval ))
+        else:
+            res.ok( src, call, '%r -> tag %r, offset %r, values %r' % ( text, got, goff, wval ))
+    res.cells = len( _OPTEXT_CELLS )
+    return res
